@@ -189,7 +189,16 @@ func init() {
 	reg("golang.org/x/crypto/scrypt.Key", func(m *Machine, a []Value) Value {
 		pw, salt := m.sliceBytes(a[0].(SliceVal)), m.sliceBytes(a[1].(SliceVal))
 		n, r, p, kl := concInt(m, a[2], "scrypt N"), concInt(m, a[3], "scrypt r"), concInt(m, a[4], "scrypt p"), int(concInt(m, a[5], "scrypt keyLen"))
-		name := fmt.Sprintf("scrypt_N%d_r%d_p%d_pw%d", n, r, p, len(pw))
+		// scrypt keys PBKDF2-HMAC-SHA256 with the password: HMAC pads a key of up to 64 bytes with zero bytes to its
+		// block (longer keys are hashed first), so passwords that differ only in trailing zero bytes are the same
+		// key. The uninterpreted function takes the padded block, which keeps exactly that identification.
+		if len(pw) > 64 {
+			pw = m.hashBytes("sha256", nil, pw)
+		}
+		for len(pw) < 64 {
+			pw = append(pw, m.mkByte(0))
+		}
+		name := fmt.Sprintf("scrypt_N%d_r%d_p%d_k0", n, r, p)
 		in := append(append([]*smt.Term(nil), pw...), salt...)
 		if len(in) == 0 {
 			in = []*smt.Term{m.mkByte(0)}
